@@ -147,15 +147,23 @@ class Registry:
         self._unsup('dict.update', line)
 
     def dictcomp(self, eng, n, fr, q):
-        # over-approximation: a fresh dict of the right types whose contents are left unconstrained (the element
-        # expressions were evaluated for a generic element, so their safety obligations are generated)
+        # over-approximation: a fresh dict of the right types (the element expressions were evaluated for a generic
+        # element, so their safety obligations are generated); a key is present iff some selected element produces it,
+        # and its value is the value produced by SOME selected element with that key (python: the last one)
         _, vars_, guard, elt, coll = q
         k, v = elt
         d = eng.new_dict(eng.value_type(k), eng.value_type(v))
         hn, ha = eng.dict_has(d)
-        eng.heap.set(hn, z3.Store(ha, d.ref, eng.run.fresh('dc_has', ha[d.ref].sort())))
+        has = eng.run.fresh('dc_has', ha[d.ref].sort())
+        eng.heap.set(hn, z3.Store(ha, d.ref, has))
         vn, va = eng.dict_val(d)
-        eng.heap.set(vn, z3.Store(va, d.ref, eng.run.fresh('dc_val', va[d.ref].sort())))
+        val = eng.run.fresh('dc_val', va[d.ref].sort())
+        eng.heap.set(vn, z3.Store(va, d.ref, val))
+        kt, vt = eng.coerce_term(k, d.kty), eng.coerce_term(eng.materialize(v, d.vty), d.vty)
+        key = z3.Const('key!dc', sort_of(d.kty))
+        eng.run.assume(z3.ForAll([key], has[key] == z3.Exists(vars_, z3.And(guard, kt == key))), silent=True)
+        eng.run.assume(z3.ForAll([key], z3.Implies(has[key], z3.Exists(vars_, z3.And(guard, kt == key, val[key] == vt)))),
+                       silent=True)
         return d
 
     def set_pop(self, eng, s, line):
